@@ -483,11 +483,11 @@ class Parser(object):
                         direction = t.val
                         self.adv()
                         is_reg = False
-                        if self.is_kw('wire'):
-                            self.adv()
-                        elif self.is_kw('reg'):
-                            self.adv()
-                            is_reg = True
+                        if self.is_kw('wire') or self.is_kw('reg'):
+                            nt = self.adv()
+                            is_reg = nt.val == 'reg'
+                            if self.is_op(',') or self.is_op(')'):
+                                raise VReservedWord(nt.val, 'port name', nt.line)
                         elif self.is_kw('integer'):
                             self.err('integer ports are not supported')
                         signed, rng = self.parse_sign_range()
